@@ -735,7 +735,12 @@ func c12Verdict(f func() error) (v string) {
 
 // the three lines of server.go serviceImpl.Propose / Timeout that sit between the wire and the
 // event loop (harness/server/c12_test.go checks this replica against the real handlers)
-func c12ServerPropose(p *Proposal, c c12Ctx) hotstuff.ProposeMsg {
+type c12Dropped struct{} // the handler delivered nothing
+
+func c12ServerPropose(p *Proposal, c c12Ctx) any {
+	if p.GetBlock() == nil {
+		return c12Dropped{}
+	}
 	id := c.peer
 	if c.kauri {
 		id = p.ProposerID()
@@ -892,6 +897,17 @@ func c12Wire(k *c12Kind, pb proto.Message) (proto.Message, error) {
 	return out, nil
 }
 
+// c12None: the receiving side produced no object (nil block / dropped message); model: Reject
+func c12None(y any) bool {
+	switch b := y.(type) {
+	case c12Dropped:
+		return true
+	case *hotstuff.Block:
+		return b == nil
+	}
+	return false
+}
+
 func c12Catch(f func() any) (y any, panicked bool) {
 	defer func() {
 		if recover() != nil {
@@ -939,6 +955,11 @@ func (h *c12H) roundTrip(u *c12Universe, kind string, x any, c c12Ctx, meta map[
 		if k.wrapped {
 			v.Case(h.rt, e.wrap("(RT_"+kind+" "+e.table()+k.ctxArgs(c, true)+" "+xs+" "+ps+" Panic "+e.obs(ox)+" ([], []))"), meta)
 		}
+		return
+	}
+	if c12None(y) {
+		v.Oracle(false, fpBase+"object-lost", "the receiving side produced no object from the wire form of a Go-constructed object", meta)
+		v.Case(h.rt, e.wrap("(RT_"+kind+" "+e.table()+k.ctxArgs(c, true)+" "+xs+" "+ps+" Reject "+e.obs(ox)+" ([], []))"), meta)
 		return
 	}
 	oy := k.obs(y)
@@ -1017,6 +1038,11 @@ func (h *c12H) fromPbOnly(kind string, pb proto.Message, c c12Ctx, meta map[stri
 		v.Case(h.fp, e.wrap("(FP_"+kind+" "+e.table()+k.ctxArgs(c, false)+" "+ps+" Panic ([], []))"), meta)
 		return
 	}
+	if c12None(y) {
+		v.Count("fp.none." + kind)
+		v.Case(h.fp, e.wrap("(FP_"+kind+" "+e.table()+k.ctxArgs(c, false)+" "+ps+" Reject ([], []))"), meta)
+		return
+	}
 	ys := k.dump(e, y)
 	if k.wrapped {
 		ys = "(Ok " + ys + ")"
@@ -1027,6 +1053,31 @@ func (h *c12H) fromPbOnly(kind string, pb proto.Message, c c12Ctx, meta map[stri
 		v.Oracle(sha256.Sum256(by) == hy, "wire."+strings.ToLower(kind)+":hash-not-of-bytes", "Hash() of a decoded block is not SHA-256 of its ToBytes()", meta)
 	}
 	v.Case(h.fp, e.wrap("(FP_"+kind+" "+e.table()+k.ctxArgs(c, false)+" "+ps+" "+ys+" "+e.obs(oy)+")"), meta)
+}
+
+// fromPbNil calls XFromProto on a nil message pointer (what the nil-safe getters hand down for an
+// absent sub-message).
+func (h *c12H) fromPbNil(kind string, nilMsg proto.Message) {
+	k, v := h.kinds[kind], h.v
+	meta := map[string]any{"kind": kind, "stream": "frompb", "gen": "nil message pointer"}
+	v.Count("fp.nil." + kind)
+	y, panicked := c12Catch(func() any { return k.fromPb(nilMsg, c12Ctx{}) })
+	e := c12NewEmit()
+	v.Seen("fpnil|"+kind, true, nil)
+	switch {
+	case panicked && k.wrapped:
+		v.Case(h.fp, "(FP_"+kind+" [] None Panic ([], []))", meta)
+	case panicked:
+		v.Oracle(false, "wire."+strings.ToLower(kind)+":unmodelled-panic", "XFromProto(nil) panicked where the model has no panic", meta)
+	case c12None(y):
+		v.Case(h.fp, "(FP_"+kind+" [] None Reject ([], []))", meta)
+	default:
+		ys := k.dump(e, y)
+		if k.wrapped {
+			ys = "(Ok " + ys + ")"
+		}
+		v.Case(h.fp, e.wrap("(FP_"+kind+" [] None "+ys+" "+e.obs(k.obs(y))+")"), meta)
+	}
 }
 
 // ---------------------------------------------------------------------------------------------
@@ -1378,7 +1429,10 @@ func (h *c12H) mutSig(s *QuorumSignature) *QuorumSignature {
 		case 2:
 			w.BLS12Sig.Participants = append(w.BLS12Sig.Participants, 0, 0x81)
 		case 3:
-			w.BLS12Sig.Sig[0] ^= 0x20 // the other square root: still a point on the curve
+			if len(w.BLS12Sig.Sig) > 0 {
+				w.BLS12Sig.Sig = append([]byte{}, w.BLS12Sig.Sig...)
+				w.BLS12Sig.Sig[0] ^= 0x20 // the other square root: still a point on the curve
+			}
 		}
 	}
 	return s
@@ -1785,6 +1839,14 @@ func TestVerifC12(t *testing.T) {
 	for _, k := range []string{"Sig", "QC", "TC", "Agg", "Sync", "Timeout", "PC", "Block", "Proposal"} {
 		h.fromPbOnly(k, h.kinds[k].newPb(), c12Ctx{peer: 2}, map[string]any{"gen": "empty message"})
 	}
+	h.fromPbNil("Sig", (*QuorumSignature)(nil))
+	h.fromPbNil("PC", (*PartialCert)(nil))
+	h.fromPbNil("QC", (*QuorumCert)(nil))
+	h.fromPbNil("TC", (*TimeoutCert)(nil))
+	h.fromPbNil("Agg", (*AggQC)(nil))
+	h.fromPbNil("Sync", (*SyncInfo)(nil))
+	h.fromPbNil("Block", (*Block)(nil))
+	h.fromPbOnly("Proposal", &Proposal{AggQC: &AggQC{View: 4}}, c12Ctx{peer: 3}, map[string]any{"gen": "proposal without a block"})
 	h.fromPbOnly("Proposal", &Proposal{Block: &Block{}}, c12Ctx{peer: 3}, map[string]any{"gen": "proposal with empty block"})
 	h.fromPbOnly("Proposal", &Proposal{Block: &Block{Proposer: 7}}, c12Ctx{peer: 3, kauri: true}, map[string]any{"gen": "kauri proposal with empty block"})
 	for i, N := 0, v.Pick(700, 8000); i < N; i++ {
